@@ -8,6 +8,7 @@ mod u_partial;
 mod u_members;
 mod u_readers;
 mod u_packfmt;
+mod u_syncmsg;
 
 #[global_allocator]
 static GLOBAL: u_readers::Counting = u_readers::Counting;
@@ -27,6 +28,8 @@ fn main() {
         ("search", "c18_members") => u_members::search(),
         ("search", "c09_readers") => u_readers::search(),
         ("search", "c09_packfmt") => u_packfmt::search(),
+        ("search", "c09_syncmsg") => u_syncmsg::search(),
+        ("run", "c09_syncmsg") => u_syncmsg::run(rest),
         _ => {
             eprintln!("unknown unit {unit}");
             std::process::exit(2);
